@@ -111,7 +111,8 @@ CHECKS = {
             "(sum f_i^2 = (1+g)^2, DTLZ5/6 on the repaired first objective), zdt1/2/3/4/6_f2 (f2 = g h(f1,g) with the published g), exact optima "
             "(plane, sphere, cigar, rosenbrock, rastrigin(+scaled,+skew), ackley, bohachevsky, griewank, schaffer, himmelblau(3,2)) and 0 as global "
             "minimum value for eight of them; trap/inv_trap maxima, royal_road1 = order x #complete blocks, chuang_f1/f2/f3 optimum values with upper "
-            "bounds; bin2float_range/zeros/ones; translate_arg, scale_arg, rotate_arg (inverse contract), noise_adds, bound_id; mp_eval_max, mp_count_inv. "
+            "bounds; bin2float_range/zeros/ones; translate_arg, scale_arg, rotate_arg (inverse contract), stack_arg, noise_adds, bound_id, rand_draw; mp_eval_max, mp_count_inv(+_total), changePeaks_total, mp_call_count, mp_init_dim; "
+            "ackley/rastrigin variants non-negative, kursawe/fonseca/poloni/dent published forms, zdt g >= 1 and zdt1_front, dtlz7_structure. "
             "Published-definition models (Core/Bench*.lean, MovingPeaks.lean) are diffed against deap.benchmarks on dimensions 0..30, 1..7 objectives, "
             "documented ranges + optima, exhaustive bit strings <= 9/12 bits, recording wrapped functions, and the three moving-peaks scenarios through 50 "
             "changes on a recorded tape; an independent numpy/Fraction transcription of every formula and the front/decorator/moving-peaks clauses are the oracle.",
@@ -137,7 +138,9 @@ CHECKS = {
             "Lean theorems (C11.complete_iff(+_count), typed_iff, searchSubtree_span/_total, height_eq/height_deepest, splice_welltyped/_complete, "
             "gen_full/gen_grow/gen_half, cx_closed, cxlb_closed, mutUniform_closed, nodeRepl_closed, ephemeral_closed, insert_closed, shrink_closed, "
             "staticLimit_sound/_closed, add_pools_ok) hold for every primitive set with the pool invariant, every tree and every tape; Core/GpTree.lean "
-            "transcribes the list-level code of deap.gp and is diffed against it by replaying the recorded random draws on 9 primitive sets x all "
+            "transcribes the list-level code of deap.gp and is diffed against it by replaying the recorded random draws on 19 primitive sets (4 loosely typed; 9 strongly "
+            "typed incl. subclass pairs, object-rooted roots, a type with terminals only, a type with primitives only; 6 with the vocabulary registered in shuffled order; "
+            "psetOK_of_adds derives the pool invariant from the registrations) x all "
             "min<=max in 0..6 x all operators (bare and under staticLimit); the statement is evaluated as an independent oracle.",
             TB + "list slicing/slice assignment/issubclass; randint/randrange/choice contracts; theorems speak about every result the generators return "
             "and gen_total/cx_total/cxlb_total/mut*_total prove that every well-typed tape of the stated length yields a result (no IndexError, termination); staticLimit totality not covered.",
@@ -146,8 +149,9 @@ CHECKS = {
             "Lean theorems (C12.str_eq_render, compileSrc_eq, tokens_render, fromString_eq_reparse, roundtrip, eval_roundtrip, adf_eval(+_two)) prove for all "
             "trees/arities that __str__'s stack machine prints the recursive text, that the tokenizer and the typed token loop of from_string parse it back to "
             "a tree with the same arities that prints and evaluates identically, and that compileADF evaluates innermost-first; the compiled callable itself is "
-            "compared with evalTree (and with a direct Python interpreter as oracle) on 7 primitive sets incl. renamed/zero arguments, typed sets, ephemerals, "
-            "negative/float constants and two-level ADFs, trees of height 0..6 from generators and variation operators.",
+            "compared with evalTree (and with a direct Python interpreter as oracle) on 9 primitive sets (renamed/zero arguments, named terminals, mixed-type equal constants, "
+            "typed sets with a zero-arity primitive and long non-dyadic float constants whose text is rendered by the model from the transported value), a same-name twin "
+            "set and three-level ADF families incl. zero-argument ADFs, trees of height 0..6 from generators and variation operators; compile_adf_independent.",
             TB + "CPython eval of the generated lambda source and repr/eval of numeric literals are trusted (reason for 'partial').",
             "Lean 4 proof over a hand-written model + differential correspondence + oracle"),
     "C13": ("partial",
@@ -155,7 +159,8 @@ CHECKS = {
             "equations, spelled out by spec_*), centroid_mean, order_independent (+ sort_perm/sort_desc/sort_best), C_symm, sigma_pos, "
             "eig_reproduces (BD BD^T = C = B diag(d^2) B^T, B orthogonal, under the eigh contract), update_psd, history_consistent (all "
             "consistency clauses after every update of every history), weights_pos_noninc_sum1, params_defaults/params_user/default_rates_ok, "
-            "lambda_default, generate_shape/sample_affine/sample_cov. The Float instance of the same definitions is diffed against numpy after "
+            "lambda_default, generate_shape (exactly lambda individuals of the problem dimension, generate_some_iff)/sample_affine/sample_cov, order_independent_fitness/sort_best_fitness "
+            "(at the real lexicographic fitness key), no_zero_division under WellPosed, numericsOk_satisfiable (the eigh contract is satisfiable for every n by the spectral theorem). The Float instance of the same definitions is diffed against numpy after "
             "every real update from the strategy's own pre-update state (dims 2..8, thorough 2..20; 1..50 generations; 3 schemes; default and "
             "user rates; 7 objectives incl. ties), and an independent numpy implementation of the published equations is the oracle, plus "
             "bit-exact order independence on permuted populations.",
@@ -169,12 +174,12 @@ CHECKS = {
             "hv_single, hv_inclusion_exclusion, hvIE_eq_hvCells, hv_1d(+_min), hv_2d staircase, indicator_least, population_coord/hv/hv_volume/default_ref) hold for all "
             "point lists and reference points over Q. pyhv's algorithm is transcribed (Core/HvSweep.lean: multi-linked list, hvRecursive with caches, bounds pruning and "
             "ignore marking) and diffed on every case against pyhv's value AND internal state; proved about it: sweep_terminates + sweep_restores_lists (all d), sweep_1d, "
-            "sweep_2d, hv_slab_step / hv_slab_decomposition (all d), sweep_eq_hvCells_partial (d <= 2); open: sweep_eq_hvCells_Statement for d >= 3. The dimension-sweep implementations (_hv.c rebuilt from the working tree on every run, pyhv.py) and the two wrappers "
+            "sweep_2d, hv_slab_step / hv_slab_decomposition (all d), sweep_eq_hvCells_partial (d <= 3); sweep_3d (through the general case of hvRecursive), hvCells_coordinate_symmetry, hv_slab_step_last; open: sweep_eq_hvCells_Statement for d >= 4 (cache reuse below bounds, ignore marks). The dimension-sweep implementations (_hv.c rebuilt from the working tree on every run, pyhv.py) and the two wrappers "
             "with both backends are diffed against hvSlice on exactly representable inputs (exhaustive small domain, every permutation for <=5 points, tie-heavy d<=7), on "
             "general-position doubles (1e-12 relative against the exact Rat measure of the doubles' exact values), and under every calling convention (lists, tuples, int "
             "arrays, the same array twice, zero reference); an independent inclusion-exclusion oracle checks every answer.",
-            TB + "partial: the proof covers the specification, the wrappers and pyhv's algorithm up to d = 2 (plus termination and the slab decomposition for all d); the C "
-            "extension (variant with AVL tree) is validated only, pyhv for d >= 3 by value and state correspondence. IEEE products of the dyadic test inputs are exact "
+            TB + "partial: the proof covers the specification, the wrappers and pyhv's algorithm up to d = 3 (plus termination, list restoration, coordinate symmetry and the slab decomposition for all d); the C "
+            "extension (variant with AVL tree) is validated only, pyhv for d >= 4 by value and state correspondence. IEEE products of the dyadic test inputs are exact "
             "(checked per case); C compiler, extension loading, numpy.argmax/max trusted.",
             "Lean 4 proof (Mathlib measure theory) over a specification-level model + differential correspondence of two implementations + oracle"),
     "C18": ("full",
